@@ -3596,6 +3596,9 @@ class ControlConnection(object):
     _schema_meta_enabled = True
     _token_meta_enabled = True
 
+    # tokens per host as of the last node list refresh, to notice token changes
+    _last_token_assignment = None
+
     _uses_peers_v2 = True
 
     # for testing purposes
@@ -3988,6 +3991,11 @@ class ControlConnection(object):
                 self._cluster.remove_host(old_host)
 
         log.debug("[control connection] Finished fetching ring info")
+        token_assignment = dict((host, frozenset(tokens)) for host, tokens in token_map.items())
+        if token_assignment != self._last_token_assignment:
+            # tokens moved or were added although membership and locations are unchanged
+            should_rebuild_token_map = True
+            self._last_token_assignment = token_assignment
         if partitioner and should_rebuild_token_map:
             log.debug("[control connection] Rebuilding token map due to topology changes")
             self._cluster.metadata.rebuild_token_map(partitioner, token_map)
